@@ -359,6 +359,19 @@ def run_unit(ctx, unit):
                 oe.result, len(oe.stdout), oe.factory_calls, oe.pulled), unit, {"args": eargs, "stdout": oe.stdout[:300]})
             return
         st.count("empty_directory_runs")
+    if prng.random() < 0.02:
+        # hundreds of input files (more than the driver process may hold open at once: its descriptor limit is 256), some
+        # with names that are not UTF-8: every file is read, one after the other
+        many = [("many/%s%03d.json" % (("f", "caf\udce9-", "\udcff")[i % 3 if i % 7 == 0 else 0], i), b"%d\n" % i) for i in range(300)]
+        om = ctx.drv.run(core.Case(["--select", ".=v", "--select", "&index=i", "--select", "&index-in-file=f", "@D@/many"], b"", files=many))
+        if om.result != "ok":
+            st.violation("many-files:" + om.result, "a directory of 300 one-value files: %s %s" % (om.result, om.errtext or om.panicinfo), unit, {"obs": om.brief()})
+            return
+        mr = parse_rows(om.stdout)
+        if sorted(x.get("v", -1) for x in mr) != list(range(300)) or [x.get("i") for x in mr] != list(range(300)) or any(x.get("f") != 0 for x in mr):
+            st.violation("many-files-rows", "a directory of 300 one-value files gives %d rows (values / &index / &index-in-file wrong)" % len(mr), unit, {"rows": mr[:5]})
+            return
+        st.count("many_files_runs")
     st.count("file_partitions", 1)
     st.see("nontrivial", (hash(data) & 0xFFFFFFF, "files%d" % len(order)))
     # noisy stream: only delivery independence and sanity of positions
